@@ -45,10 +45,12 @@ def r19_1(ctx: Ctx):
     for name in ("pickle_dump", "pickle_load"):
         m = ctx.prog.own_method("DemeTree", name)
         effs = ctx.eff.of(m)
-        bad = sorted(e for e in effs if e[0] not in ("IO", "LOG", "RNG-NANTIE"))
+        # RNG-NANTIE: comparing two individuals whose fitness values are both NaN flips a coin on Python's global stream
+        # (FunctionProblem.worse_than): a snapshot operation that orders individuals changes the global random state
+        bad = sorted(e for e in effs if e[0] not in ("IO", "LOG"))
         if bad:
             e = bad[0]
-            obs.append(ctx.ob("R19.1", m, m.node, status=VIOLATION if e[0] != "UNKNOWN" else INCONCLUSIVE, detail=f"DemeTree.{name} is not a pure snapshot operation: {e[0]} {e[1]}", witness=ctx.eff.chain(m, e), construct=f"{name}:{e[0]}"))
+            obs.append(ctx.ob("R19.1", m, m.node, status=VIOLATION if e[0] != "UNKNOWN" else INCONCLUSIVE, detail=f"DemeTree.{name} is not a pure snapshot operation: {e[0]} {e[1]}" + (" (it compares individuals; a NaN-vs-NaN comparison draws from Python's global random stream, so dumping changes the random state of the live run)" if e[0] == "RNG-NANTIE" else ""), witness=ctx.eff.chain(m, e), construct=f"{name}:{e[0]}"))
         else:
             obs.append(ctx.ob("R19.1", m, m.node, detail=f"{name}: effects {sorted({e[0] for e in effs})}", construct=name))
     d = ctx.prog.own_method("DemeTree", "pickle_dump")
